@@ -272,6 +272,14 @@ func c03Case(ev *vlib.Evidence, driver string, idx int) {
 				}
 			}
 		}
+		if c := w.Deposits.Corrupted(); len(c) > 0 {
+			fail("deposit-cache-modified-by-the-pool", map[string]interface{}{"deposits": c})
+			return
+		}
+	}
+	if c := w.Deposits.Corrupted(); len(c) > 0 {
+		fail("deposit-cache-modified-by-the-pool", map[string]interface{}{"deposits": c})
+		return
 	}
 	if idx < 2 {
 		ev.Sample(map[string]interface{}{"driver": driver, "trace": trace})
